@@ -432,8 +432,8 @@ ASSUMPTIONS = {
     "C08": ["relative to frame decoding: crate::from_bytes_cobs::<T> is an external_body stub with an uninterpreted spec function (D5), pinned by C06/C07", "stub position_zero (D4) checked by Kani for slices <= 8", "axiom: slices and arrays are at most isize::MAX bytes (Rust language guarantee)", "where-clauses T: Deserialize dropped (D6)"],
     "C09": ["same stubs and axioms as C08", "progress/termination is proved for the documented loop as written in the accumulator's doc comment (exec driver in the unit's trailer)"],
     "C10": ["A-crc-burst: detection of every burst <= width is a property of the catalogue polynomials (crc / crc-catalog dependency), not of code in /repo; decided here only through 'Ok ==> stored checksum == bitwise reference CRC of the consumed bytes'", "crc crate tables are used as compiled; checked against the bitwise reference only on the probe messages", A_SERDE],
-    "C11": ["bounded: stream <= 6 bytes, scratch <= 4, because std's read_exact / write_all loops are bounded by the requested count; embedded-io adapters are not covered in the quick tier", A_SERDE],
-    "C12": [A_SERDE, "#[derive(MaxSize)] is a token-stream generator: not covered by any contract (no corpus harness could be built inside the postcard crate because the derive emits ::postcard paths)", A_PARAM],
+    "C11": ["bounded: stream <= 6 bytes, scratch <= 4, because std's read_exact / write_all loops are bounded by the requested count; the embedded-io 0.6 adapters are covered in the thorough tier only (separate feature build), embedded-io 0.4 not at all", A_SERDE],
+    "C12": [A_SERDE, "#[derive(MaxSize)]: only the discriminant-size helper is under contract (extracted verbatim into a harness); the token-stream generation (sum over fields, max over variants) is not covered - and postcard depends on the REGISTRY postcard-derive 0.1.2, not on the workspace copy", A_PARAM],
     "C13": [A_SERDE, "macro-generated impls are verified after expansion (Kani works on MIR)"],
     "C14": [A_SERDE, A_PARAM, "derive output: bounded corpus only (token-stream generator); tuple/struct enum variants are checked with a non-recursive one-level checker (leaf payloads only)", "std collections (Vec, String, maps, sets) and heapless containers: only the shape of the schema constant is checked", "chrono, nalgebra, uuid impls not covered", "'a schema-driven reader parses every encoding' is not proved as a lemma"],
     "C15": [A_SERDE, "bounded: one concrete tree per node kind (depth <= 3); lifting to all trees relies on compositionality of serde_derive output"],
@@ -489,3 +489,29 @@ for k, f in [("hash_update", HS + "fnv1a64::hash_update"), ("hash_update_str", H
 for o in OBLIGATIONS:
     if o["id"] == "C16.V.fnv.hash_update": o["witness"] = "C16.K.fnv.hash_update"
     if o["id"] == "C16.V.fnv.hash_update_str": o["witness"] = "C16.K.fnv.hash_update_str"
+
+# ---------------------------------------------------------------- C12: the derive's discriminant-size helper (private fn of the proc-macro crate)
+def prepare_schema_group(ws):
+    """Scratch-only: a proc-macro crate cannot host a Kani harness, so the private helper `varint_size_discriminant` of
+    source/postcard-derive/src/max_size.rs is extracted MECHANICALLY (tools/extract.py, by name, verbatim text) into a file that the
+    cfg(kani) harness module of postcard-schema includes."""
+    import sys as _sys
+    _sys.path.insert(0, _os.path.join(_os.path.dirname(_os.path.dirname(_os.path.abspath(__file__))), "tools"))
+    import extract as _ex
+    text, _line = _ex.extract_fn(_os.path.join(ws, "source"), dict(file="postcard-derive/src/max_size.rs", name="varint_size_discriminant"))
+    open(_os.path.join(ws, "source", "postcard-schema", "src", "verif_extracted_discr.rs"), "w").write("// extracted verbatim from source/postcard-derive/src/max_size.rs\n" + text + "\n")
+
+PREPARE["postcard-schema|" + SCH["features"]] = prepare_schema_group
+DISC = "postcard-schema/src/lib.rs::verif_discr"
+K("C12.K.derive.discriminant", DISC, "verif_discr::discriminant_size", {"C12": "D"}, fns=["postcard_derive::max_size::varint_size_discriminant (extracted verbatim)"],
+  note="for every variant count c >= 1 and every index i < c: |varint(i)| <= varint_size_discriminant(c); and the bound is not more than one byte above the largest index's length", **SCH)
+
+# ---------------------------------------------------------------- C11: embedded-io 0.6 adapters (separate feature build)
+EIO = dict(features="use-std,heapless,embedded-io-06", needs=())
+C11E = "postcard/src/lib.rs::verif_c11e"
+K("C11.K.eio.reader", C11E, "verif_c11e::eioreader_contract", {"C11": "D"}, label="bounded(stream<=5, scratch<=3)", tier="thorough",
+  fns=["postcard::de::flavors::io::eio::EIOReader::pop", "postcard::de::flavors::io::eio::EIOReader::try_take_n", "postcard::de::flavors::io::eio::EIOReader::finalize"],
+  note="EIOReader over a model embedded_io::Read with nondeterministic short reads and failure injection: same flavour contract as IOReader", **EIO)
+K("C11.K.eio.writer", C11E, "verif_c11e::eio_writeflavor_contract", {"C11": "D"}, label="bounded(block<=3)", tier="thorough",
+  fns=["postcard::ser::flavors::eio::WriteFlavor::try_push", "postcard::ser::flavors::eio::WriteFlavor::try_extend", "postcard::ser::flavors::eio::WriteFlavor::finalize"],
+  note="eio::WriteFlavor over a model embedded_io::Write that accepts partial writes, becomes full or fails: Ok ==> the bytes reached the writer", **EIO)
